@@ -179,10 +179,15 @@ def rule_ml(repo: Repo, rep: Report) -> int:
     ok = "num_messages = 2 ** k" in body and "k = self.code_dimension" in body and any(b == "codewords[i] = self.encoder(messages[i].unsqueeze(0)).squeeze(0)" for b in body) and "messages[i, k - j - 1] = float(i >> j & 1)" in body
     loops = [unparse(s.iter) for s in stmts_of(gc.body) if isinstance(s, ast.For)]
     ok = ok and loops.count("range(num_messages)") == 2
-    rep.expect(ok, "ML", gc, "codebook: all 2^k messages (binary expansion of i), each encoded by self.encoder", "the complete code, produced by the encoder itself", "the codebook is not the encoder's image of all 2^k messages")
-    r = returns_of(gc.node)
-    rep.expect(len(r) == 1 and unparse(r[0].value) == "(codewords, messages)", "ML", gc, "returns (codewords, messages) index-aligned", "codeword i belongs to message i", "codebook / message map alignment changed")
-    n += 2
+    cst, cdet = (OK, "") if ok else codebook_evaluated(gc)
+    if not ok and cst in (OK, VIOLATION):
+        rep.add("ML", gc, "codebook evaluated with a model encoder (k = 1..4)", cst, cdet, node=gc.node)
+        n += 2
+    else:
+        rep.expect(ok, "ML", gc, "codebook: all 2^k messages (binary expansion of i), each encoded by self.encoder", "the complete code, produced by the encoder itself", "the codebook is not the encoder's image of all 2^k messages")
+        r = returns_of(gc.node)
+        rep.expect(len(r) == 1 and unparse(r[0].value) == "(codewords, messages)", "ML", gc, "returns (codewords, messages) index-aligned", "codeword i belongs to message i", "codebook / message map alignment changed")
+        n += 2
     db = repo.method(ci, "_decode_batch")
     args = [c for c in ast.walk(db.node) if isinstance(c, ast.Call) and call_name(c) in ("torch.argmin", "torch.argmax")]
     if len(args) != 1:
@@ -210,6 +215,46 @@ def rule_ml(repo: Repo, rep: Report) -> int:
     cb = [s for s in stmts_of(init.body) if isinstance(s, ast.Assign) and unparse(s.targets[0]) in ("codebook, message_map", "(codebook, message_map)")]
     rep.expect(len(cb) == 1 and unparse(cb[0].value) == "self._generate_codebook()", "ML", init, "pre-computed codebook = self._generate_codebook()", "per decoder, from its own encoder", "codebook source changed")
     return n + 1
+
+
+def codebook_evaluated(gc: FuncInfo):
+    """Unlisted spelling of the codebook construction: run it (own arithmetic) with a model encoder (message -> message
+    followed by its parity and its first bit, an injective map) for k = 1..4: the message table must contain every one of
+    the 2^k messages once, and row i of the codeword table must be the encoding of row i of the message table."""
+    from itertools import product
+
+    from ..constfold import Unfoldable
+    from ..frag import FragRaise, FragReturn, run_fragment
+    from ..gf2 import EvalObj
+
+    class Enc(EvalObj):
+        def __call__(self, x):
+            rows = x if x and isinstance(x[0], list) else [x]
+            out = [[int(b) for b in r_] + [sum(int(b) for b in r_) % 2, int(r_[0])] for r_ in rows]
+            return out if x and isinstance(x[0], list) else out[0]
+
+    for k in (1, 2, 3, 4):
+        try:
+            run_fragment(gc.body, {}, {"self.code_dimension": k, "self.code_length": k + 2, "self.encoder": Enc()}, max_steps=400000, materialise=True)
+            return UNDECIDED, "no value returned"
+        except FragReturn as r:
+            res = r.value
+        except (Unfoldable, FragRaise, TypeError, IndexError) as exc:
+            return UNDECIDED, f"not evaluable ({exc})"
+        if not (isinstance(res, list) and len(res) == 2):
+            return UNDECIDED, "result is not a pair of tables"
+        cw, ms = res
+        try:
+            msgs = [tuple(int(b) for b in r_) for r_ in ms]
+            cws = [[int(b) for b in r_] for r_ in cw]
+        except (TypeError, ValueError):
+            return UNDECIDED, "tables are not 0/1 matrices"
+        if sorted(msgs) != sorted(product((0, 1), repeat=k)):
+            return VIOLATION, f"for k = {k} the message table {msgs[:6]}... is not the set of all 2^k messages, each once: some codewords are missing from the search, so the decoder is not maximum likelihood"
+        for i, m_ in enumerate(msgs):
+            if cws[i] != list(m_) + [sum(m_) % 2, m_[0]]:
+                return VIOLATION, f"for k = {k} row {i} of the codeword table is not the encoding of row {i} of the message table: the decoder returns the message of another codeword"
+    return OK, "all 2^k messages once, codeword i = encoder(message i) (model encoder, k = 1..4)"
 
 
 def bm_evaluated(alg: FuncInfo):
